@@ -135,7 +135,9 @@ def run_proofs(report, prop, modules, timeout_ms=None):
                     continue
                 if o["kind"] == "path-sat":
                     continue
-                mine_ = (not o["tags"]) or prop in o["tags"]
+                # every function a check lists is listed because the property depends on it: all its obligations count for this check
+                # (the tags on a contract name the properties whose statement it transcribes; they no longer restrict who reports it)
+                mine_ = True
                 if not mine_ and o["result"] != "proved":
                     # an obligation owned by other properties only: reported by their checks, not counted here
                     report.coverage.setdefault("foreign_undischarged", []).append(o["name"])
@@ -151,7 +153,7 @@ def run_proofs(report, prop, modules, timeout_ms=None):
                     if len(samples) < 12:
                         samples.append({"obligation": o["name"], "backend": o["backend"], "ms": o["ms"]})
                 else:
-                    mine = (not o["tags"]) or prop in o["tags"]
+                    mine = True
                     if not mine:
                         continue
                     detail = {"obligation": o["name"], "function": fn, "source": r.get("source"),
